@@ -31,6 +31,12 @@ def plan(tier, seed):
                 gs.append(Group('%s.backward[o=%d,ri=%d,needs=%s]' % (cls, o, r, ''.join('T' if b else 'F' for b in nd)),
                                 D.g_function_adjoint, (cls, o, r, nd), functions=fns,
                                 replay=rp('dtcwt_grad', which='inverse', o_dim=o, ri_dim=r, needs=[nd[0]] + [nd[1]] * 3)))
+    # absent low-pass (None / 0-dim placeholder) with the band-pass input requiring grad: its slot must get None, the band-pass its adjoint
+    for cls in ('INV_J1', 'INV_J2PLUS'):
+        for la in ('none', '0dim'):
+            gs.append(Group('%s.backward[o=2,ri=-1,needs=FT,lowpass=%s]' % (cls, la), D.g_function_adjoint, (cls, 2, -1, (False, True)),
+                            {'low_absent': la}, functions=[(TFk, cls + '.forward'), (TFk, cls + '.backward')],
+                            replay=rp('dtcwt_grad', which='inverse', low_absent=la)))
     for cls in ('FWD_J1', 'FWD_J2PLUS', 'INV_J1', 'INV_J2PLUS'):
         gs.append(Group('%s.forward[o=2,ri=-1]' % cls, D.g_function_forward, (cls, 2, -1), functions=[(TFk, cls + '.forward')]))
     for n, loader in T.accepted():
@@ -46,6 +52,8 @@ def plan(tier, seed):
         jobs.append({'fn': 'dtcwt_grad', 'cfg': {'which': 'inverse', 'biort': b, 'qshift': q}, 'grid': {'J': [1, 2], 'H': [4, 7], 'W': [6]}})
     jobs.append({'fn': 'dtcwt_grad', 'cfg': {'which': 'forward', 'skip_hps': [False, True, False], 'include_scale': [True, False, True]}, 'grid': {'J': [3], 'H': [8], 'W': [12]}})
     jobs.append({'fn': 'dtcwt_grad', 'cfg': {'which': 'inverse', 'needs': [False, True, False, True]}, 'grid': {'J': [3], 'H': [8], 'W': [8]}})
+    for la in ('none', 'empty', '0dim'):
+        jobs.append({'fn': 'dtcwt_grad', 'cfg': {'which': 'inverse', 'low_absent': la}, 'grid': {'J': [1, 2, 3], 'H': [8], 'W': [8]}})
     for (o, r) in [(0, 1), (4, 2), (-1, 3)]:
         jobs.append({'fn': 'dtcwt_grad', 'cfg': {'which': 'forward', 'o_dim': o, 'ri_dim': r}, 'grid': {'J': [2], 'H': [6], 'W': [8]}})
         jobs.append({'fn': 'dtcwt_grad', 'cfg': {'which': 'inverse', 'o_dim': o, 'ri_dim': r}, 'grid': {'J': [2], 'H': [6], 'W': [8]}})
